@@ -96,7 +96,7 @@ func (e *Query) toIndexKey() any {
 }
 
 func (e *Query) toIndices(xs []any) []any {
-	if e.Term == nil {
+	if e.Term == nil || len(e.FuncDefs) > 0 {
 		return nil
 	}
 	return e.Term.toIndices(xs)
